@@ -104,4 +104,262 @@ theorem out_sublist_gen (limit : Int) (stops : List Bytes) (evs : List Ev) :
     (fun st h _ => hfinish _ _ _ h) (fun st p h _ _ => hstep st p h) (fun st p h _ _ => hstep st p h)
     evs init (List.Sublist.refl _)
 
+/-! ### 4. generated text that is (a prefix of) valid UTF-8: the output is a prefix of it — ANY stops -/
+
+/-- `ValidPrefix g`: `g` is a prefix of some valid UTF-8 string, i.e. valid except that the last
+    character may still be incomplete (the limit may cut generation inside a character). -/
+theorem prefix_valid (limit : Int) (stops : List Bytes) (evs : List Ev) :
+    let f := run limit stops init evs
+    ValidPrefix f.genText → f.outText <+: f.genText ∧ validUtf8 f.outText = true := by
+  let Inv : St → Prop := fun st =>
+    st.genText = st.outText ++ st.pending.flatten ∧ validUtf8 st.outText = true
+  let Post : St → Prop := fun f => f.outText <+: f.genText ∧ validUtf8 f.outText = true
+  have hfinish : ∀ (st : St) r c, validUtf8 st.out.flatten = true →
+      (∃ x, st.gen.flatten = st.out.flatten ++ st.pending.flatten ++ x) → Post (st.finish r c) := by
+    intro st r c hv ⟨x, hx⟩
+    show (st.finish r c).out.flatten <+: (st.finish r c).gen.flatten ∧ validUtf8 (st.finish r c).out.flatten = true
+    rw [finish_out, finish_gen, flush_out, hx]
+    obtain ⟨y, hy⟩ := trimValid_prefix st.pending.flatten
+    refine ⟨⟨y ++ x, ?_⟩, validUtf8_append hv (trimValid_valid _)⟩
+    have hy' : flushText st.pending ++ y = st.pending.flatten := hy
+    rw [List.append_assoc, ← List.append_assoc (flushText st.pending) y x, hy']
+    exact (List.append_assoc _ _ _).symm
+  refine run_ind (limit := limit) (stops := stops)
+    (Inv := fun st => ValidPrefix st.genText → Inv st)
+    (Post := fun f => ValidPrefix f.genText → Post f) ?_ ?_ ?_ ?_ ?_ evs init
+    (fun _ => ⟨rfl, by decide⟩)
+  · intro st hi _ hvp
+    obtain ⟨h1, h2⟩ := hi hvp
+    exact ⟨⟨_, h1.symm⟩, h2⟩
+  · intro st hi _ hvp
+    obtain ⟨h1, h2⟩ := hi (by simpa [St.genText] using hvp)
+    exact hfinish st _ _ h2 ⟨[], by rw [List.append_nil]; exact h1⟩
+  · intro st hi _ hvp
+    obtain ⟨h1, h2⟩ := hi (by simpa [St.genText] using hvp)
+    exact hfinish { st with numPredicted := st.numPredicted + 1 } _ _ h2 ⟨[], by rw [List.append_nil]; exact h1⟩
+  · intro st p hi _ hd hvp
+    rw [stepPiece_genText] at hvp
+    obtain ⟨h1, h2⟩ := hi hvp.left
+    have h1' : st.gen.flatten = st.out.flatten ++ st.pending.flatten := h1
+    rcases stepPiece_cases stops st p with ⟨s, hs, h⟩ | ⟨_, _, h⟩ | ⟨_, _, hinc, h⟩
+    · rw [h]
+      obtain ⟨idx, hidx⟩ := (findStop_some hs).2.indexOf
+      refine hfinish { st.push p with pending := (truncateStop (st.push p).pending s).1 } _ _ h2 ?_
+      refine ⟨((st.pending ++ [p]).flatten).drop idx, ?_⟩
+      show (st.gen ++ [p]).flatten = st.out.flatten ++ (truncateStop (st.pending ++ [p]) s).1.flatten ++ _
+      have hidx' : indexOf s (st.pending ++ [p]).flatten = some idx := hidx
+      rw [truncateStop_flatten hidx', List.append_assoc, List.take_append_drop]
+      simp [h1', List.append_assoc]
+    · rw [h]
+      exact ⟨⟨(st.push p).pending.flatten, by
+        show st.out.flatten ++ (st.pending ++ [p]).flatten = (st.gen ++ [p]).flatten
+        simp [h1', List.append_assoc]⟩, h2⟩
+    · rw [h]
+      show (st.push p).flush.out.flatten <+: (st.push p).flush.gen.flatten ∧ validUtf8 (st.push p).flush.out.flatten = true
+      rw [flush_out, flush_gen]
+      obtain ⟨y, hy⟩ := trimValid_prefix (st.push p).pending.flatten
+      refine ⟨⟨y, ?_⟩, validUtf8_append h2 (trimValid_valid _)⟩
+      show st.out.flatten ++ flushText (st.pending ++ [p]) ++ y = (st.gen ++ [p]).flatten
+      rw [flushText, List.append_assoc]
+      have : trimValid (st.pending ++ [p]).flatten ++ y = (st.pending ++ [p]).flatten := hy
+      rw [this]; simp [h1', List.append_assoc]
+  · intro st p hi _ hd hvp
+    rw [stepPiece_genText] at hvp
+    obtain ⟨h1, h2⟩ := hi hvp.left
+    have h1' : st.gen.flatten = st.out.flatten ++ st.pending.flatten := h1
+    rcases stepPiece_cases stops st p with ⟨s, hs, h⟩ | ⟨_, _, h⟩ | ⟨_, _, hinc, h⟩
+    · rw [h] at hd; simp at hd
+    · rw [h]
+      exact ⟨by
+        show (st.gen ++ [p]).flatten = st.out.flatten ++ (st.pending ++ [p]).flatten
+        simp [h1', List.append_assoc], h2⟩
+    · rw [h]
+      change incompleteUnicode (st.pending ++ [p]).flatten = false at hinc
+      have hvseq : ValidPrefix (st.pending ++ [p]).flatten := by
+        have : st.genText ++ p = st.out.flatten ++ (st.pending ++ [p]).flatten := by
+          show st.gen.flatten ++ p = _
+          simp [h1', List.append_assoc]
+        rw [this] at hvp
+        exact ValidPrefix.right h2 hvp
+      have hvalid := valid_of_not_incomplete hvseq hinc
+      have hout : (st.push p).flush.out.flatten = st.out.flatten ++ (st.pending ++ [p]).flatten := by
+        rw [flush_out]
+        show st.out.flatten ++ flushText (st.pending ++ [p]) = _
+        rw [flushText, trimValid_of_valid hvalid]
+      constructor
+      · show (st.push p).flush.gen.flatten = (st.push p).flush.out.flatten ++ (st.push p).flush.pending.flatten
+        rw [flush_gen, flush_pending, hout]
+        show (st.gen ++ [p]).flatten = _
+        simp [h1', List.append_assoc]
+      · show validUtf8 (st.push p).flush.out.flatten = true
+        rw [hout]; exact validUtf8_append h2 hvalid
+
+/-- concatenations of streamed chunks are valid -/
+theorem flatten_valid : ∀ (l : List Bytes), (∀ c ∈ l, validUtf8 c = true) → validUtf8 l.flatten = true := by
+  intro l
+  induction l with
+  | nil => intro _; decide
+  | cons c l ih =>
+    intro h
+    simp only [List.flatten_cons]
+    exact validUtf8_append (h c (List.mem_cons_self ..)) (ih (fun c' hc' => h c' (List.mem_cons_of_mem _ hc')))
+
+/-- **No streamed piece splits a character.**  Every boundary between streamed chunks (the end of
+    the first `k` chunks, any `k`) is a character boundary of the generated text: what was
+    streamed up to there is valid UTF-8, is a prefix of the generated text, and whatever valid
+    text the generation is completed to, the part after the boundary is valid on its own. -/
+theorem no_split (limit : Int) (stops : List Bytes) (evs : List Ev) (k : Nat) :
+    let f := run limit stops init evs
+    let cut := (f.out.take k).flatten
+    ValidPrefix f.genText →
+      validUtf8 cut = true ∧ cut <+: f.genText ∧
+      ∀ r, validUtf8 (f.genText ++ r) = true → validUtf8 ((f.genText ++ r).drop cut.length) = true := by
+  intro f cut hvp
+  have hcv := chunks_valid limit stops evs
+  have hv : validUtf8 cut = true :=
+    flatten_valid _ (fun c hc => (hcv c (List.mem_of_mem_take hc)).1)
+  have hpre : cut <+: f.genText := by
+    have h1 : cut <+: f.out.flatten := by
+      have : f.out = f.out.take k ++ f.out.drop k := (List.take_append_drop k f.out).symm
+      exact ⟨(f.out.drop k).flatten, by rw [← List.flatten_append, ← this]⟩
+    exact List.IsPrefix.trans h1 (prefix_valid limit stops evs hvp).1
+  refine ⟨hv, hpre, ?_⟩
+  intro r hr
+  obtain ⟨y, hy⟩ := hpre
+  rw [← hy, List.append_assoc, List.drop_left]
+  rw [← hy, List.append_assoc, validUtf8_append_left hv] at hr
+  exact hr
+
+/-! ### 5. stop strings (valid, non-empty stops; generated text a prefix of valid UTF-8) -/
+
+/-- **A stop ended the run** ⇒ it is the first *listed* stop occurring in the generated text, the
+    output is exactly the generated text before that stop's first occurrence, the reason is "stop",
+    and no stop occurred before the last token ("as soon as"). -/
+theorem stop_found (limit : Int) (stops : List Bytes) (evs : List Ev) (hok : StopsOk stops) (s : Bytes) :
+    let f := run limit stops init evs
+    ValidPrefix f.genText → f.cause = some (.stopString s) →
+      f.done = some .stop ∧ s ∈ stops ∧ findStop f.genText stops = some s ∧
+      (∃ idx, indexOf s f.genText = some idx ∧ f.outText = f.genText.take idx) ∧
+      (∀ t ∈ stops, ¬ Occurs t f.gen.dropLast.flatten) := by
+  intro f hvp hc
+  have := run_main hok limit evs hvp
+  unfold Post at this
+  rw [hc] at this
+  exact ⟨this.1, this.2.1, this.2.2.1, this.2.2.2.1, this.2.2.2.2.1⟩
+
+/-- **No stop ended the run** (still running, EOS, or limit) ⇒ no stop occurs anywhere in the
+    generated text; at EOS / at the limit the output is all of it (minus a trailing incomplete
+    character); while running nothing is lost: output ++ pending = generated. -/
+theorem ends_at_eos_or_limit (limit : Int) (stops : List Bytes) (evs : List Ev) (hok : StopsOk stops) :
+    let f := run limit stops init evs
+    ValidPrefix f.genText → (∀ s, f.cause ≠ some (.stopString s)) →
+      (∀ t ∈ stops, ¬ Occurs t f.genText) ∧
+      ((f.cause = some .eos ∨ f.cause = some .limit) → f.outText = trimValid f.genText) ∧
+      ((f.cause = some .eos ∨ f.cause = some .limit) → validUtf8 f.genText = true → f.outText = f.genText) ∧
+      (f.cause = none → f.outText ++ f.pending.flatten = f.genText) := by
+  intro f hvp hc
+  have := run_main hok limit evs hvp
+  unfold Post at this
+  cases hcause : f.cause with
+  | none =>
+    rw [hcause] at this
+    exact ⟨this.noOcc, by simp, by simp, fun _ => this.split.symm⟩
+  | some c =>
+    cases c with
+    | stopString s => exact absurd hcause (hc s)
+    | eos =>
+      rw [hcause] at this
+      exact ⟨this.2.2.1, fun _ => this.2.1, fun _ hv => by rw [this.2.1, trimValid_of_valid hv], by simp⟩
+    | limit =>
+      rw [hcause] at this
+      exact ⟨this.2.2.1, fun _ => this.2.1, fun _ hv => by rw [this.2.1, trimValid_of_valid hv], by simp⟩
+
+/-- "as soon as the generated text contains a stop the output ends": if any stop occurs in the
+    generated text, the run was ended by a stop string -/
+theorem stop_honoured (limit : Int) (stops : List Bytes) (evs : List Ev) (hok : StopsOk stops) :
+    let f := run limit stops init evs
+    ValidPrefix f.genText → (∃ t ∈ stops, Occurs t f.genText) →
+      ∃ s, f.cause = some (.stopString s) ∧ f.done = some .stop := by
+  intro f hvp ⟨t, ht, hocc⟩
+  cases hcause : f.cause with
+  | some c =>
+    cases c with
+    | stopString s => exact ⟨s, rfl, (stop_found limit stops evs hok s hvp hcause).1⟩
+    | eos => exact absurd hocc ((ends_at_eos_or_limit limit stops evs hok hvp (by simp [f, hcause])).1 t ht)
+    | limit => exact absurd hocc ((ends_at_eos_or_limit limit stops evs hok hvp (by simp [f, hcause])).1 t ht)
+  | none => exact absurd hocc ((ends_at_eos_or_limit limit stops evs hok hvp (by simp [f, hcause])).1 t ht)
+
+/-- the guard under which the multi-stop clause holds: the first *listed* stop occurring in the
+    text is also the one that starts earliest -/
+def firstListedIsEarliest (stops : List Bytes) (g : Bytes) : Bool :=
+  match findStop g stops with
+  | none => true
+  | some s => stops.all fun t =>
+      match indexOf t g, indexOf s g with
+      | some j, some i => decide (i ≤ j)
+      | _, _ => true
+
+/-- **Multi-stop clause, partial.**  The full statement ("the output contains no stop") is FALSE on
+    the pinned code (finding F7, witness below).  It holds whenever the first listed stop that
+    occurs in the generated text is also the earliest occurrence. -/
+theorem no_stop_in_output_partial (limit : Int) (stops : List Bytes) (evs : List Ev) (hok : StopsOk stops) :
+    let f := run limit stops init evs
+    ValidPrefix f.genText → firstListedIsEarliest stops f.genText = true →
+      ∀ t ∈ stops, ¬ Occurs t f.outText := by
+  intro f hvp hguard t ht hocc
+  by_cases hc : ∃ s, f.cause = some (.stopString s)
+  · obtain ⟨s, hcs⟩ := hc
+    obtain ⟨_, _, hfind, ⟨idx, hidx, hout⟩, _⟩ := stop_found limit stops evs hok s hvp hcs
+    rw [hout] at hocc
+    obtain ⟨a, b, hab⟩ := hocc
+    have hgen : f.genText = a ++ t ++ (b ++ f.genText.drop idx) := by
+      have := (List.take_append_drop idx f.genText).symm
+      rw [hab] at this
+      rw [this]; simp [List.append_assoc]
+    have hOcc : Occurs t f.genText := ⟨a, _, hgen⟩
+    obtain ⟨j, hj⟩ := hOcc.indexOf
+    have hjle := (indexOf_spec t _ j hj).2 a _ hgen
+    unfold firstListedIsEarliest at hguard
+    rw [hfind] at hguard
+    have := List.all_eq_true.mp hguard t ht
+    rw [hj, hidx] at this
+    have hij : idx ≤ j := by simpa using this
+    have hlen := congrArg List.length hab
+    rw [List.length_take] at hlen
+    simp only [List.length_append] at hlen
+    have htne : t.length ≠ 0 := fun h0 => (hok t ht).1 (List.eq_nil_of_length_eq_zero h0)
+    omega
+  · have hc' : ∀ s, f.cause ≠ some (.stopString s) := fun s h => hc ⟨s, h⟩
+    obtain ⟨hno, _, _, _⟩ := ends_at_eos_or_limit limit stops evs hok hvp hc'
+    apply hno t ht
+    obtain ⟨y, hy⟩ := (prefix_valid limit stops evs hvp).1
+    rw [← hy]; exact hocc.append_right y
+
+/-- **Single stop**: the full clause.  If the stop occurs in the generated text, the output is
+    exactly the text before its first occurrence, contains no stop, and the reason is "stop";
+    otherwise the run was not ended by a stop string. -/
+theorem single_stop (limit : Int) (s : Bytes) (evs : List Ev) (hs : s ≠ [] ∧ validUtf8 s = true) :
+    let f := run limit [s] init evs
+    ValidPrefix f.genText →
+      (Occurs s f.genText →
+        f.done = some .stop ∧ ¬ Occurs s f.outText ∧
+        ∃ idx, indexOf s f.genText = some idx ∧ f.outText = f.genText.take idx) ∧
+      (¬ Occurs s f.genText → ∀ s', f.cause ≠ some (.stopString s')) := by
+  intro f hvp
+  have hok : StopsOk [s] := by intro t ht; simp at ht; subst ht; exact hs
+  constructor
+  · intro hocc
+    obtain ⟨s', hc, hd⟩ := stop_honoured limit [s] evs hok hvp ⟨s, by simp, hocc⟩
+    obtain ⟨_, hmem, hfind, hidx, _⟩ := stop_found limit [s] evs hok s' hvp hc
+    simp at hmem; subst hmem
+    refine ⟨hd, ?_, hidx⟩
+    apply no_stop_in_output_partial limit [s'] evs hok hvp _ s' (by simp)
+    unfold firstListedIsEarliest
+    rw [hfind]
+    obtain ⟨idx, hi, _⟩ := hidx
+    simp [hi]
+  · intro hno s' hc
+    obtain ⟨_, hmem, hfind, _, _⟩ := stop_found limit [s] evs hok s' hvp hc
+    exact hno (findStop_some hfind).2 |> fun h => h.elim <| by simp at hmem; subst hmem; exact (findStop_some hfind).2
+
 end OllamaVerif.C14
